@@ -121,10 +121,10 @@ func kidScale(kids []*built) float64 {
 	return s
 }
 
-func c2(p kit.V3) model2d.Coord   { return model2d.XY(p[0], p[1]) }
-func c3(p kit.V3) model3d.Coord3D { return m3.C3(p) }
-func v2(p kit.V3) kit.V2          { return kit.V2{p[0], p[1]} }
-func v3(p kit.V2) kit.V3          { return kit.V3{p[0], p[1], 0} }
+func c2(p kit.V3) model2d.Coord    { return model2d.XY(p[0], p[1]) }
+func c3(p kit.V3) model3d.Coord3D  { return m3.C3(p) }
+func v2(p kit.V3) kit.V2           { return kit.V2{p[0], p[1]} }
+func v3(p kit.V2) kit.V3           { return kit.V3{p[0], p[1], 0} }
 func from2(c model2d.Coord) kit.V3 { return kit.V3{c.X, c.Y, 0} }
 
 func sgn(in bool) int {
